@@ -38,11 +38,11 @@ static void build_scenarios(bool thorough) {
 		{"ctor(view)", 7, {0}, false}, {"ctor(first,last)", 8, {0}, false}, {"ctor(init-list)", 9, {0}, false},
 		{"copy-assign", 10, {0, 1, 2}, true}, {"move-assign", 11, {0, 1, 2}, true}, {"assign-from-view", 12, {1, 2}, true}, {"assign-from-other-element-type", 13, {1, 2}, true}, {"assign-init-list", 14, {1, 2}, false}, {"assign(first,last)", 15, {1, 2}, true},
 		{"reextent(x)", 16, {0, 2}, false}, {"reextent(x,v)", 17, {0, 2}, false}, {"reextent(&&)", 18, {0, 2}, false}, {"clear", 19, {1}, true}, {"swap", 20, {1, 2}, true}, {"decay(+)", 21, {0}, false},
-		{"view=view", 22, {1}, true}, {"view=move(view)", 23, {1}, true}, {"view.elements()=elements()", 24, {1}, true}, {"static_array-copy-assign", 25, {1}, true}, {"static_array-copy-ctor", 26, {0}, false}, {"static_array-move-ctor", 27, {0}, false}, {"view-fill", 28, {1}, true}, {"view-swap", 29, {1}, true}, {"copy-assign(unequal-alloc)", 30, {1}, true}, {"assign-from-view(unequal-alloc)", 31, {1}, true}, {"move-assign(unequal-alloc)", 32, {1, 2}, false}, {"move-ctor(unequal-alloc)", 33, {0}, false}, {"assign-from-const-view", 34, {1}, true}, {"assign-from-lazy-range", 35, {1, 2}, true},
+		{"view=view", 22, {1}, true}, {"view=move(view)", 23, {1}, true}, {"view.elements()=elements()", 24, {1}, true}, {"static_array-copy-assign", 25, {1}, true}, {"static_array-copy-ctor", 26, {0}, false}, {"static_array-move-ctor", 27, {0}, false}, {"view-fill", 28, {1}, true}, {"view-swap", 29, {1}, true}, {"copy-assign(unequal-alloc)", 30, {1}, true}, {"assign-from-view(unequal-alloc)", 31, {1}, true}, {"move-assign(unequal-alloc)", 32, {1, 2}, false}, {"move-ctor(unequal-alloc)", 33, {0}, false}, {"assign-from-const-view", 34, {1}, true}, {"assign-from-lazy-range", 35, {1, 2}, true}, {"move-ctor(stateful-alloc)", 36, {0}, true},
 	};
 	for(auto const& sh : shapes) for(auto const& o : ops) for(int pr : o.priors) {
 		bool noalloc = o.noalloc_same && (pr != 2 || o.id == 11 || o.id == 20) && !(pr == 0 && o.id == 10);
-		if(o.id == 6) noalloc = true;
+		if(o.id == 6 || o.id == 36) noalloc = true;
 		scenarios.push_back(Scn{std::string(o.n) + (pr == 0 ? (o.id >= 10 && o.id <= 18 ? "(to-empty)" : "") : pr == 1 ? "(same-extents)" : "(other-extents)"), pr, sh, alt_shape(sh), noalloc, o.id});
 	}
 }
@@ -77,7 +77,7 @@ template<int DD> int run_scn_t(Scn const& s, int fk, long k, long* counts /*out 
 		if(s.prior == 1) { A.emplace(ext, Elem(1)); } else if(s.prior == 2) { A.emplace(oext, Elem(1)); } else if((s.opid >= 10 && s.opid <= 15) || (s.opid >= 16 && s.opid <= 18)) { A.emplace(); }
 		if(s.opid == 25) { SA.emplace(ext, Elem(1)); SB.emplace(ext, Elem(2)); } if(s.opid == 26 || s.opid == 27) { SB.emplace(ext, Elem(2)); }
 		if(s.opid == 29 || s.opid == 20) { if(!A) A.emplace(ext, Elem(1)); }
-		if(s.opid == 32) { A.reset(); A.emplace(s.prior == 1 ? ext : oext, Elem(1), Alloc(1)); B.reset(); B.emplace(ext, Elem(7), Alloc(2)); fill_ids(*B); } if(s.opid == 33) { B.reset(); B.emplace(ext, Elem(7), Alloc(2)); fill_ids(*B); }
+		if(s.opid == 32) { A.reset(); A.emplace(s.prior == 1 ? ext : oext, Elem(1), Alloc(1)); B.reset(); B.emplace(ext, Elem(7), Alloc(2)); fill_ids(*B); } if(s.opid == 33 || s.opid == 36) { B.reset(); B.emplace(ext, Elem(7), Alloc(2)); fill_ids(*B); }
 		if(s.opid == 30 || s.opid == 31) { A.reset(); A.emplace(ext, Elem(1), Alloc(1)); B.reset(); B.emplace(ext, Elem(7), Alloc(2)); fill_ids(*B); }  // equal extents, unequal non-propagating allocator instances
 		std::vector<Elem> vec; vec.reserve(16); for(L i = 0; i < (DD == 1 ? s.shape[0] : 0); ++i) vec.emplace_back(int(next_id++));
 		OArr O(ext, 5);
@@ -118,6 +118,7 @@ template<int DD> int run_scn_t(Scn const& s, int fk, long k, long* counts /*out 
 			case 31: *A = (*B)(); break;
 			case 32: *A = std::move(*B); break;   // non-propagating, unequal allocator instances: the block cannot change hands, the elements are moved
 			case 33: C.emplace(std::move(*B), Alloc(1)); break;
+			case 36: C.emplace(std::move(*B)); if(C->get_allocator().id != 2) violation("C09:move-ctor(stateful-alloc):allocator", "the plain move constructor did not take over the source's allocator"); break;   // plain move construction of an array whose allocator instance is not a default-constructed one: adopts block and allocator, allocates nothing
 			case 35: *A = LazyRange<Arr>{&*B}; break;   // a right-hand side that is neither a view nor an array (extensions(), begin(), end() only): the kind of object the lazy BLAS / FFT expressions are
 			case 34: if constexpr(DD >= 2) { Arr Bt(B->transposed()); faults().reset_counts(); if(k > 0) fk_at(fk) = k; a0 = ledger().n_alloc; auto const& cv = std::as_const(Bt).transposed(); *A = cv; } else { Arr const& Bc = *B; auto const& cv = Bc.sliced(0, Bc.size()); *A = cv; } break;  // a named read-only view (const_subarray) of equal extents and non-canonical strides
 			default: break;
